@@ -317,6 +317,7 @@ def run(repo, chk):
     # ---------------- E5: return arm ends in goto(ra) --------------------------
     gf = GenFacts(repo)
     n5 = 0
+    e5_failed = False
     for p, events in gf.inlined('gen_stmts'):
         if p.outcome != 'return':
             continue
@@ -334,10 +335,12 @@ def run(repo, chk):
         if not ok:
             chk.fail('C16.E5', 'gen_stmts[ReturnStatement] path', 'return arm must end with Jump(ra); Halt and report exited=True '
                      f'(last emissions: {[i.short() for i in items[-3:]]})', GEN, items[-1].line if items else 0)
+            e5_failed = True
             break
     else:
         chk.ok('C16.E5', 'gen_stmts[ReturnStatement]', f'{n5} paths end in goto(ra)')
-    chk.floor('return-arm paths', n5, 4)
+    if not e5_failed:      # (a reported path ends the loop early)
+        chk.floor('return-arm paths', n5, 4)
     # break/continue arms report exited=True as well
     for arm in ('BreakStatement', 'ContinueStatement'):
         good = True
